@@ -762,11 +762,15 @@ func tsdCase(c *core.Ctx, r *rand.Rand) {
 	{
 		var we *encoding.TSDEncoder
 		guard(c, "te get 0 7", func() string { we = encoding.GetTSDEncoder(7); return "ok" })
-		for k := 0; k < 3; k++ {
+		for k := 0; k < 1+r.Intn(3); k++ {
 			guard(c, "te time 0 1", func() string { we.AppendTime(bit.One); return "ok" })
 			v := r.Uint64()
 			guard(c, fmt.Sprintf("te val 0 %d", v), func() string { we.AppendValue(v); return "ok" })
 		}
+		for k := 0; k < r.Intn(8); k++ { // 0..7 more bits: the use is ABORTED with a partial byte pending (no Bytes())
+			guard(c, "te time 0 1", func() string { we.AppendTime(bit.One); return "ok" })
+		}
+		c.Branch("tsd-encoder-aborted-with-pending-bits")
 		encoding.ReleaseTSDEncoder(we)
 		c.Op("te rel 0", "ok")
 		var wd *encoding.TSDDecoder
@@ -1018,6 +1022,37 @@ func tsdCase(c *core.Ctx, r *rand.Rand) {
 				}
 			}
 		}
+		// what Bytes()/BytesWithoutTime() returned is a view of an internal buffer: it must stay unchanged
+		// while the encoder goes on writing (until it is re-armed)
+		if r.Intn(4) == 0 {
+			c.Branch("bytes-view-after-later-writes")
+			var view, snap []byte
+			wt := r.Intn(2) == 0
+			if wt {
+				guard(c, "te bwt 0", func() string { d, _ := enc.BytesWithoutTime(); view, snap = d, cp(d); return hx(d) })
+			} else {
+				guard(c, "te bytes 0", func() string {
+					d, _ := enc.Bytes()
+					view, snap = d, cp(d)
+					if d == nil {
+						return "nil"
+					}
+					return hx(d)
+				})
+			}
+			for k := 0; k < 1+r.Intn(12); k++ {
+				if r.Intn(3) == 0 {
+					guard(c, "te time 0 0", func() string { enc.AppendTime(bit.Zero); return "ok" })
+				} else {
+					guard(c, "te time 0 1", func() string { enc.AppendTime(bit.One); return "ok" })
+					v := r.Uint64()
+					guard(c, fmt.Sprintf("te val 0 %d", v), func() string { enc.AppendValue(v); return "ok" })
+				}
+			}
+			if !bytes.Equal(view, snap) {
+				c.Fail("bytes-result-changed-by-later-writes", fmt.Sprintf("TSDEncoder (withoutTime=%v): the slice returned earlier changed while further slots were appended: %x -> %x", wt, snap, view))
+			}
+		}
 		// rarely: Bytes() a second time on the same encoder (flush does not re-arm the writer)
 		if r.Intn(12) == 0 && !b.noTime {
 			c.Branch("tsd-bytes-twice")
@@ -1114,11 +1149,33 @@ func deltaCase(c *core.Ctx, r *rand.Rand) {
 		if r.Intn(15) == 0 {
 			n = 0
 		}
+		if r.Intn(8) == 0 {
+			n = 2 // exactly one delta
+		}
 		vals := make([]int32, n)
 		prev := int32(r.Uint32())
-		mode := r.Intn(5)
+		mode := r.Intn(8)
+		big := int32(1 + r.Intn(1<<20))
 		for i := range vals {
 			switch mode {
+			case 5: // the FIRST delta is the largest, all later ones smaller (extremes in any order)
+				if i == 1 {
+					vals[i] = prev - big
+				} else {
+					vals[i] = prev - int32(r.Intn(int(big)))
+				}
+			case 6: // the FIRST delta is the smallest, later ones grow
+				if i == 1 {
+					vals[i] = prev + big
+				} else {
+					vals[i] = prev + int32(r.Intn(int(big)))
+				}
+			case 7: // the LAST delta is the only extreme
+				if i == len(vals)-1 {
+					vals[i] = prev - big*3
+				} else {
+					vals[i] = prev - 1
+				}
 			case 0: // constant: width 0
 				vals[i] = prev
 			case 1: // arithmetic progression: all deltas equal
@@ -1136,8 +1193,20 @@ func deltaCase(c *core.Ctx, r *rand.Rand) {
 			v := vals[i]
 			guard(c, fmt.Sprintf("de add 0 %d", v), func() string { enc.Add(v); return "ok" })
 		}
-		var data []byte
-		guard(c, "de bytes 0", func() string { data = cp(enc.Bytes()); return hx(data) })
+		var data, dview []byte
+		guard(c, "de bytes 0", func() string { dview = enc.Bytes(); data = cp(dview); return hx(data) })
+		if r.Intn(4) == 0 {
+			// further Add()s do not touch the buffer Bytes() returned (it is rewritten by the next Bytes()/Reset only)
+			c.Branch("bytes-view-after-later-writes")
+			for k := 0; k < 1+r.Intn(4); k++ {
+				v := genI32(r, prev)
+				prev = v
+				guard(c, fmt.Sprintf("de add 0 %d", v), func() string { enc.Add(v); return "ok" })
+			}
+			if !bytes.Equal(dview, data) {
+				c.Fail("bytes-result-changed-by-later-writes", fmt.Sprintf("DeltaBitPackingEncoder: the slice returned by Bytes() changed while further values were added: %x -> %x", data, dview))
+			}
+		}
 		if dec == nil || r.Intn(4) == 0 {
 			c.Branch("delta-decoder-new")
 			guard(c, "dd new 0 "+hx(data), func() string { dec = encoding.NewDeltaBitPackingDecoder(data); return "ok" })
@@ -1483,6 +1552,34 @@ func externalCase(c *core.Ctx, r *rand.Rand, caseIdx int) {
 		}()
 		c.Note(fmt.Sprintf("bitmap cardinality=%d", bm.GetCardinality()))
 	}
+	// the empty bitmap decoded into a target that still holds the previous, non-empty bitmap
+	func() {
+		defer func() {
+			if e := recover(); e != nil {
+				c.Fail("panic", fmt.Sprintf("bitmap codec panicked: %v", e))
+			}
+		}()
+		c.Branch("bitmap-empty-into-used-target")
+		full := roaring.BitmapOf(1, 2, 70000, 1<<31)
+		d0, err := encoding.BitmapMarshal(full)
+		if err != nil {
+			c.Fail("bitmap-roundtrip", "marshal error: "+err.Error())
+			return
+		}
+		if _, err := encoding.BitmapUnmarshal(target, cp(d0)); err != nil || !target.Equals(full) {
+			c.Fail("bitmap-roundtrip", fmt.Sprintf("4-value bitmap into reused target: err=%v equal=%v", err, target.Equals(full)))
+		}
+		empty := roaring.New()
+		d1, err := encoding.BitmapMarshal(empty)
+		if err != nil {
+			c.Fail("bitmap-roundtrip", "marshal of the empty bitmap: "+err.Error())
+			return
+		}
+		n1, err := encoding.BitmapUnmarshal(target, cp(d1))
+		if err != nil || int(n1) != len(d1) || !target.IsEmpty() {
+			c.Fail("bitmap-roundtrip", fmt.Sprintf("empty bitmap (%d bytes) decoded into a target holding 4 values: err=%v read=%d, target now has %d values", len(d1), err, n1, target.GetCardinality()))
+		}
+	}()
 	// snappy chunk writer / reader, both reused across chunks. Every chunk is decoded right away
 	// AND again after all later chunks were written and decoded (what Bytes() returned for chunk 1
 	// must still be chunk 1 after chunk 2 went through the same writer).
@@ -1807,6 +1904,17 @@ func streamCase(c *core.Ctx, r *rand.Rand) {
 	}
 	data, _ := w.Bytes()
 	data = cp(data)
+	{
+		// BufferWriter.Bytes() is a view: what it showed stays unchanged when more is written
+		view, _ := w.Bytes()
+		for k := 0; k < 1+r.Intn(6); k++ {
+			v := genEdgeU64(r)
+			guard(c, fmt.Sprintf("sw uv 0 %d", v), func() string { w.PutUvarint64(v); return out() })
+		}
+		if !bytes.Equal(view, data) {
+			c.Fail("bytes-result-changed-by-later-writes", fmt.Sprintf("stream.BufferWriter: the slice returned by Bytes() changed while more was written: %x -> %x", data, view))
+		}
+	}
 	rd := stream.NewReader(data)
 	c.Op("sr new 0 "+hx(data), "ok")
 	for i, p := range puts {
